@@ -332,4 +332,134 @@ theorem package_filter {X : XID} (F : XIDFacts X) (sig : Sig) :
     rw [hm]
 
 
+/-! ### `get_tests` end to end: every discovered key is looked up and found -/
+
+instance : LawfulMonad Res := LawfulMonad.mk'
+  (id_map := by intro α x; cases x <;> rfl)
+  (pure_bind := by intros; rfl)
+  (bind_assoc := by intro α β γ x f g; cases x <;> rfl)
+
+/-- element-wise relation of two lists (core Lean has no `Forall₂`) -/
+inductive All2 {α β} (P : α → β → Prop) : List α → List β → Prop where
+  | nil : All2 P [] []
+  | cons {a b l bs} : P a b → All2 P l bs → All2 P (a :: l) (b :: bs)
+
+theorem mapM_ok_forall₂ {α β} (f : α → Res β) (P : α → β → Prop) : ∀ l : List α,
+    (∀ a ∈ l, ∃ b, f a = .ok b ∧ P a b) → ∃ bs, List.mapM f l = .ok bs ∧ All2 P l bs
+  | [], _ => ⟨[], by simp, All2.nil⟩
+  | a :: l, h => by
+    obtain ⟨b, hb, hp⟩ := h a (by simp)
+    obtain ⟨bs, hbs, hf⟩ := mapM_ok_forall₂ f P l (fun x hx => h x (by simp [hx]))
+    refine ⟨b :: bs, ?_, All2.cons hp hf⟩
+    rw [List.mapM_cons, hb, hbs]
+    rfl
+
+theorem All2.keys {α β} {key : β → α} {Q : β → Prop} {l : List α} {bs : List β}
+    (h : All2 (fun a b => key b = a ∧ Q b) l bs) : bs.map key = l ∧ ∀ b ∈ bs, Q b := by
+  induction h with
+  | nil => exact ⟨rfl, fun b hb => by cases hb⟩
+  | cons h _ ih =>
+    refine ⟨by simp [h.1, ih.1], ?_⟩
+    intro c hc
+    rcases List.mem_cons.mp hc with rfl | hc
+    · exact h.2
+    · exact ih.2 c hc
+
+theorem find_of_mem_nodup : ∀ (t : Table) (k : Name) (i : FnInfo),
+    (Table.keys t).Nodup → (k, i) ∈ t → Table.find t k = some i
+  | [], _, _, _, h => by simp at h
+  | (k', i') :: t, k, i, hn, hm => by
+    simp only [Table.keys, List.map_cons, List.nodup_cons] at hn
+    rcases List.mem_cons.mp hm with e | hm'
+    · cases e
+      simp [Table.find]
+    · have hne : k' ≠ k := by
+        intro e
+        subst e
+        exact hn.1 (List.mem_map.mpr ⟨(k', i), hm', rfl⟩)
+      have ih := find_of_mem_nodup t k i hn.2 hm'
+      simp only [Table.find] at ih ⊢
+      simp [hne, ih]
+
+theorem strip_prefix_append (p rest : Name) : RStr.strip_prefix (p ++ rest) p = some rest := by
+  unfold RStr.strip_prefix
+  have : p.isPrefixOf (p ++ rest) = true := List.isPrefixOf_iff_prefix.mpr (List.prefix_append p rest)
+  simp [this]
+
+/-- every full name starts with `pkg.` -/
+theorem fullName_pkgDot (path : List Name) (item : Name) : ∃ rest, fullName path item = pkgDot ++ rest := by
+  cases path with
+  | nil => exact ⟨item, by simp [fullName, dotJoin, pkgName, pkgDot]⟩
+  | cons p ps => exact ⟨dotJoin (p :: ps ++ [item]), by simp [fullName, dotJoin, pkgName, pkgDot]⟩
+
+/-- the look-up step of `get_tests` (GENERATED `get_tests_case`): a key `pkg.<rest>` that is in
+    the table with the signature of a test yields the handle of exactly that entry, no panic. -/
+theorem get_tests_case_spec (dbg : Bool) (module : Module) (rest : Name) (info : FnInfo)
+    (hn : (Table.keys module.functions).Nodup) (hm : (pkgDot ++ rest, info) ∈ module.functions)
+    (hs : info.sig = testSig) :
+    ∃ c, get_tests_case dbg module (pkgDot ++ rest) = .ok c ∧ c.func = ⟨pkgDot ++ rest, info⟩ := by
+  have hfind := find_of_mem_nodup module.functions (pkgDot ++ rest) info hn hm
+  have hstrip := strip_prefix_append pkgDot rest
+  simp only [pkgDot, List.cons_append, List.nil_append] at hstrip hfind
+  unfold get_tests_case
+  simp [hstrip, RUnwrap.unwrap, Module.get_function, get_function, pkgDot, hfind, hs, TestCase.new]
+
+/-- a test key of a package is in its table, with the signature given to tests -/
+theorem testKeys_mem_table (mirName : Name → Name) (sig : Sig) (mods : List Mod) (k : Name)
+    (hk : k ∈ testKeys mirName mods) :
+    ∃ v rest, (k, ⟨sig, v⟩) ∈ packageTable mirName sig mods ∧ k = pkgDot ++ rest := by
+  simp only [testKeys, List.mem_flatMap, List.mem_map, List.mem_filter] at hk
+  obtain ⟨m, hm, d, ⟨hd, ht⟩, rfl⟩ := hk
+  cases d with
+  | fn n i => simp [Decl.isTest] at ht
+  | test n v =>
+    obtain ⟨rest, hr⟩ := fullName_pkgDot m.path (Decl.key mirName (.test n v))
+    refine ⟨v, rest, ?_, hr⟩
+    simp only [packageTable, List.mem_flatMap, moduleTable, List.mem_map]
+    exact ⟨m, hm, .test n v, hd, rfl⟩
+
+/-- a declared test block is a test key -/
+theorem decl_mem_testKeys (mirName : Name → Name) (mods : List Mod) (m : Mod) (hm : m ∈ mods)
+    (n : Name) (v : Verdict Unit Unit) (hd : Decl.test n v ∈ m.decls) :
+    fullName m.path (mirName n) ∈ testKeys mirName mods := by
+  simp only [testKeys, List.mem_flatMap, List.mem_map, List.mem_filter]
+  exact ⟨m, hm, .test n v, ⟨hd, rfl⟩, rfl⟩
+
+theorem mem_nodup_unique : ∀ (t : Table) (k : Name) (i j : FnInfo),
+    (Table.keys t).Nodup → (k, i) ∈ t → (k, j) ∈ t → i = j := by
+  intro t k i j hn hi hj
+  have h1 := find_of_mem_nodup t k i hn hi
+  have h2 := find_of_mem_nodup t k j hn hj
+  rw [h1] at h2
+  exact Option.some.inj h2
+
+
+/-! ### counting rejecting blocks; the exit status -/
+
+/-- the number of rejecting blocks among the tests that are run -/
+def failureCount (tests : List TestCase) : Nat := (tests.filter (fun t => !accepts t)).length
+
+theorem failureCount_pos (tests : List TestCase) :
+    0 < failureCount tests ↔ ∃ t ∈ tests, t.func.info.verdict ≠ .Accept () := by
+  unfold failureCount
+  rw [List.length_pos_iff_exists_mem]
+  constructor
+  · rintro ⟨t, ht⟩
+    obtain ⟨hm, hp⟩ := List.mem_filter.mp ht
+    exact ⟨t, hm, by simpa [accepts] using hp⟩
+  · rintro ⟨t, hm, hp⟩
+    exact ⟨t, List.mem_filter.mpr ⟨hm, by simpa [accepts] using hp⟩⟩
+
+theorem failureCount_replicate (acc rej : TestCase)
+    (hacc : acc.func.info.verdict = .Accept ()) (hrej : rej.func.info.verdict = .Reject ()) (a n : Nat) :
+    failureCount (List.replicate a acc ++ List.replicate n rej) = n := by
+  simp [failureCount, List.filter_append, accepts, hacc, hrej]
+
+@[simp] theorem failed_SUCCESS : ExitCode.SUCCESS.failed = false := rfl
+@[simp] theorem failed_FAILURE : ExitCode.FAILURE.failed = true := rfl
+/-- a literal status (`ExitCode::from(k)`): the proofs below do not depend on WHICH non-zero
+    status a failure exits with -/
+@[simp] theorem failed_ofStatus (n : Nat) : (ExitCode.ofStatus n).failed = (n % 256 != 0) := rfl
+
+
 end RotoV.TRL
